@@ -595,6 +595,8 @@ theorem runOp_st (h : HState) (op : SOp) (hs : OSt pre U f F h.c.out) :
       · exact resultArrayBinary_st es sz same hs
     | ePush code info => exact hs.of_eq (by simp)
     | iTag => exact hs
+    | iIsCmd s => exact hs
+    | iMatch pat s => exact hs
     | iNums n d =>
       dsimp only
       split
